@@ -56,15 +56,23 @@ Make(f) ==
     [] f = "bic8" -> Up(6) \o An(2)
     [] f = "bic11" -> Up(6) \o An(5)
     [] f = "isrc" -> R(TablesDef.isrc_cc) \o An(3) \o Dg(7)
+    (* just OUTSIDE the formats: check characters right, one length too short or too long (the empty reference, 22 characters, *)
+    (* EAN / IMEI bodies of the lengths in between) -- the transcription must reject them (Outside), and so must the code (A1) *)
+    [] f = "iso11649_short" -> <<82, 70>> \o M97C(<<82, 70>>)
+    [] f = "iso11649_long" -> LET ref == An(22) IN <<82, 70>> \o M97C(ref \o <<82, 70>>) \o ref
+    [] f = "ean_badlen" -> LET b == Dg(R({6, 8, 9, 10, 14, 15})) IN Append(b, EanC(b))
+    [] f = "imei_badlen" -> LET b == Dg(R({12, 16})) IN Append(b, LuhnC(b))
+Outside == {"iso11649_short", "iso11649_long", "ean_badlen", "imei_badlen"}
 Kinds == {"ean8", "ean12", "ean13", "ean14", "isbn10", "isbn13", "issn", "ismn10", "ismn13", "imei15", "imei14", "imei16", "isni", "lei",
-          "iso11649", "grid", "cusip", "sedol", "figi", "isin", "imo", "casrn", "bic8", "bic11", "isrc"}
+          "iso11649", "grid", "cusip", "sedol", "figi", "isin", "imo", "casrn", "bic8", "bic11", "isrc"} \cup Outside
 FormatOf(k) == CASE k \in {"ean8", "ean12", "ean13", "ean14"} -> "ean" [] k \in {"isbn10", "isbn13"} -> "isbn"
                  [] k \in {"ismn10", "ismn13"} -> "ismn" [] k \in {"imei14", "imei15", "imei16"} -> "imei"
-                 [] k \in {"bic8", "bic11"} -> "bic" [] OTHER -> k
+                 [] k \in {"bic8", "bic11"} -> "bic" [] k \in {"iso11649_short", "iso11649_long"} -> "iso11649"
+                 [] k = "ean_badlen" -> "ean" [] k = "imei_badlen" -> "imei" [] OTHER -> k
 VARIABLES kind, s
 Init == kind = "none" /\ s = <<>>
 Next == kind = "none" /\ \E k \in {R(Kinds)} : kind' = k /\ s' = Make(k)
 Spec == Init /\ [][Next]_<<kind, s>>
-SelfConsistent == kind = "none" \/ F!Accept(FormatOf(kind), s)
+SelfConsistent == kind = "none" \/ (F!Accept(FormatOf(kind), s) <=> kind \notin Outside)
 Emit == kind = "none" \/ PrintT(<<"MADE", FormatOf(kind), kind, s>>)
 =============================================================================
